@@ -19,7 +19,7 @@ EXPLANATION = (
     "more than half of a backend's probes are inconclusive. Positive programs: `keys are Send + Sync` must compile; the API-shape programs "
     "are controls of the probe machinery. rustc is the oracle; nothing is executed.")
 ASSUMPTIONS = ["rustc's type checker and coherence checker", "the probe catalogue is the finite set of misuse programs claimed (programs outside it are covered only by the impl census)"]
-FLOORS = {"R18.1": 10, "R18.2": 200, "R18.3": 24}
+FLOORS = {"R18.1": 10, "R18.2": 260, "R18.3": 24}
 EXHAUSTIVE = True
 
 CRATES = ["paseto_v1", "paseto_v2", "paseto_v3", "paseto_v3_aws_lc", "paseto_v4", "paseto_v4_sodium"]
@@ -141,13 +141,13 @@ def run(ctx):
             pre = catalogue.PRELUDE.format(C=c, V=VTYPE[c])
             for p in catalogue.PROBES:
                 for kind in ("bad", "good"):
-                    src = pre + p[kind].format(C=c, V=VTYPE[c], O=OTHER[c]) + "\n"
+                    src = pre + p[kind].format(C=c, V=VTYPE[c], O=OTHER[c], OV=VTYPE[OTHER[c]]) + "\n"
                     path = os.path.join(tmp, f"{c}_{p['id']}_{kind}.rs")
                     open(path, "w").write(src)
                     jobs.append((c, p, kind, path))
             for qid, what, code in catalogue.POSITIVE:
                 path = os.path.join(tmp, f"{c}_{qid}.rs")
-                open(path, "w").write(pre + code.format(C=c, V=VTYPE[c], O=OTHER[c]) + "\n")
+                open(path, "w").write(pre + code.format(C=c, V=VTYPE[c], O=OTHER[c], OV=VTYPE[OTHER[c]]) + "\n")
                 jobs.append((c, {"id": qid, "what": what}, "positive", path))
         def work(j):
             c, p, kind, path = j
@@ -193,4 +193,4 @@ def run(ctx):
                 f"{n} of {len(catalogue.PROBES)} misuse probes no longer fit the API (their twins do not compile): the catalogue cannot speak for this build" if n * 2 > len(catalogue.PROBES) else "",
                 facts={"inconclusive": n})
     ctx.sample({"probes_per_backend": len(catalogue.PROBES), "backends": len(CRATES), "compilations": len(results),
-                "example": catalogue.PROBES[14]["bad"].format(C="paseto_v4", V="V", O="paseto_v4_sodium")})
+                "example": catalogue.PROBES[14]["bad"].format(C="paseto_v4", V="V", O="paseto_v4_sodium", OV="OV")})
